@@ -72,7 +72,6 @@ Section TableProofs.
   Notation hcopy := (hcopy B b0 upd_bound h cap unlimited wf0 wfThr start next logStart calcCapacity maxLog).
   Notation hclear := (hclear B b0 wf0).
   Notation step := (step B b0 decode upd_bound h cap unlimited wf0 wfThr start next logStart calcCapacity shift maxLog).
-  Notation merge_loop := (merge_loop B b0 decode upd_bound h cap unlimited wf0 wfThr start next logStart calcCapacity shift maxLog).
   Notation wstep := (wstep B b0 decode upd_bound h cap unlimited wf0 wfThr start next logStart calcCapacity shift maxLog).
   Notation wrun := (wrun B b0 decode upd_bound h cap unlimited wf0 wfThr start next logStart calcCapacity shift maxLog).
   Notation it_remove := (it_remove B b0 wf0).
@@ -892,61 +891,6 @@ Section TableProofs.
     - intros E. exfalso. apply Hne; auto. intro E'. rewrite E' in Hn. destruct gi; discriminate.
   Qed.
 
-  (* ---------- Remove(filter) ---------- *)
-  Lemma buckets_rem_if_spec p : forall bs c bs' c', buckets_rem_if B p bs c = (bs', c') ->
-    Forall2 bshr bs bs' /\ Permutation (ball bs') (filter (negp p) (ball bs)) /\
-    c' = c + Z.of_nat (length (ball bs)) - Z.of_nat (length (ball bs')).
-  Proof.
-    induction bs as [|b r IH]; intros c bs' c' H; simpl in H.
-    - inversion H; subst. simpl. csplit; auto. lia.
-    - destruct (brem_if p (length (items b)) (items b) c) as [l1 c1] eqn:E1.
-      destruct (buckets_rem_if B p r c1) as [r' c2] eqn:E2. inversion H; subst; clear H.
-      assert (E1' : brem_if p (length (items b)) (items b ++ []) c = (l1, c1)) by (rewrite app_nil_r; exact E1).
-      destruct (brem_if_spec p _ _ [] _ _ _ eq_refl (Forall_nil _) E1') as [P1 C1]. rewrite app_nil_r in P1.
-      destruct (IH _ _ _ E2) as [F2 [P2 C2]].
-      csplit.
-      + constructor; auto. unfold bshr; simpl. csplit; auto.
-        * intros y Hy. apply (Permutation_in y (Permutation_map fst P1)) in Hy.
-          apply in_map_iff in Hy. destruct Hy as [z [Ez Hz]]. apply filter_In in Hz. apply in_map_iff. exists z. tauto.
-        * rewrite (Permutation_length P1). apply filter_length_le.
-      + simpl. rewrite filter_app. apply Permutation_app; auto.
-      + simpl. rewrite !app_length. rewrite (Permutation_length P1) in *. lia.
-  Qed.
-
-  Lemma gens_rem_if_spec p : forall gs c gs' c', Forall TInv gs -> gens_rem_if B p gs c = (gs', c') ->
-    Forall TInv gs' /\ Permutation (gall gs') (filter (negp p) (gall gs)) /\
-    c' = c + Z.of_nat (length (gall gs)) - Z.of_nat (length (gall gs')) /\ (gs' = [] -> gs = []).
-  Proof.
-    induction gs as [|t r IH]; intros c gs' c' F H; simpl in H.
-    - inversion H; subst. simpl. csplit; auto. lia.
-    - inversion F as [|? ? It Fr]; subst.
-      destruct (buckets_rem_if B p (tbs t) c) as [bs' c1] eqn:E1.
-      destruct (gens_rem_if B p r c1) as [r' c2] eqn:E2. inversion H; subst; clear H.
-      destruct (buckets_rem_if_spec p _ _ _ _ E1) as [F1 [P1 C1]].
-      destruct (IH _ _ _ Fr E2) as [F2 [P2 [C2 _]]].
-      csplit.
-      + constructor; auto. eapply shrink_inv; [exact It|apply bshr_shrinks; auto].
-      + rewrite !gall_cons. rewrite filter_app. apply Permutation_app; auto.
-      + rewrite !gall_cons, !app_length. unfold tall at 1 2. simpl tbs. fold (ball (tbs t)). fold (ball bs'). lia.
-      + discriminate.
-  Qed.
-
-  Lemma hremove_if_spec s p s' c : Inv s -> hremove_if B s p = (s', c) ->
-    Inv s' /\ Permutation (hall s') (filter (negp p) (hall s)) /\
-    c = Z.of_nat (length (hall s)) - Z.of_nat (length (hall s')).
-  Proof.
-    intros I. unfold HashModel.hremove_if. destruct (Z.eqb_spec (count s) 0) as [E0|E0].
-    - intros H; inversion H; subst. rewrite (hall_count0 _ I E0). simpl. csplit; auto.
-    - destruct (gens_rem_if B p (gens s) 0) as [gs c1] eqn:E. intros H; inversion H; subst; clear H.
-      destruct (gens_rem_if_spec p _ _ _ _ (inv_t _ I) E) as [F [P [C Hne]]].
-      split; [|split; [exact P|unfold hall; simpl; lia]].
-      constructor; simpl; auto.
-      + unfold hall; simpl. eapply NoDup_keys_perm; [apply Permutation_sym; exact P|]. apply NoDup_keys_filter. apply I.
-      + unfold hall; simpl. pose proof (inv_count _ I) as HC. unfold hall in HC. lia.
-      + intros Eg. apply I. auto.
-  Qed.
-
-
   (* ---------- Remove(filter) as the loop over the iterator machine ---------- *)
   Lemma it_remove_refines s gi bi p x : Inv s -> ivalid s (Some (gi, bi, p)) -> it_get B s (Some (gi, bi, p)) = Some x ->
     Inv (fst (it_remove s (Some (gi, bi, p)))) /\ Permutation (x :: hall (fst (it_remove s (Some (gi, bi, p))))) (hall s).
@@ -1209,48 +1153,6 @@ Section TableProofs.
     - exfalso. simpl in E. destruct (hfind a k) as [[[[gi idx] pos] v0]|]; inversion E; subst; discriminate.
     - simpl in *. unfold sp_mem in HR'. rewrite (sp_find_in _ _ _ ND Hin) in HR'. exact HR'.
   Qed.
-
-  Lemma merge_loop_spec : forall its a b ma mb a' b' ok,
-    R a ma -> R b mb -> NoDup (map fst its) -> (forall kv, In kv its -> In kv ma) ->
-    merge_loop its a b = (a', b', ok) ->
-    exists ma' mb' moved, R a' ma' /\ R b' mb' /\ Permutation (moved ++ ma') ma /\ Permutation mb' (moved ++ mb) /\
-                          (ok = true -> moved = moved_of its mb).
-  Proof.
-    induction its as [|[k v] r IH]; intros a b ma mb a' b' ok Ra Rb ND Hin H; simpl in H.
-    - inversion H; subst. exists ma, mb, []. simpl. auto.
-    - inversion ND as [|? ? Hk ND']; subst.
-      assert (Hin' : forall kv, In kv r -> In kv ma) by (intros; apply Hin; right; auto).
-      pose proof Rb as [Ib Pb]. pose proof (R_nodup _ _ Rb) as NDb.
-      destruct (hfind b k) as [[[[gi idx] pos] v0]|] eqn:E.
-      + pose proof (hfind_in _ _ _ _ _ _ Ib E) as Hb. apply (Permutation_in _ Pb) in Hb.
-        destruct (IH _ _ _ _ _ _ _ Ra Rb ND' Hin' H) as [ma' [mb' [mv [A1 [A2 [A3 [A4 A5]]]]]]].
-        exists ma', mb', mv. repeat (split; auto). intros Hok. simpl.
-        assert (Hm : sp_mem mb k = true) by (apply sp_mem_iff, in_keys; eauto). rewrite Hm. auto.
-      + pose proof (hfind_none _ _ Ib E) as Hno.
-        assert (Hnm : ~ In k (map fst mb)). { intro Hi. apply Hno. apply (Permutation_in _ (Permutation_map fst (Permutation_sym Pb))). exact Hi. }
-        assert (Hm : sp_mem mb k = false). { destruct (sp_mem mb k) eqn:Em; auto. apply sp_mem_iff in Em. contradiction. }
-        destruct (hadd b (k, v) None) as [b1|] eqn:Ea.
-        * destruct (hadd_spec _ _ _ _ _ Ib Hno Ea) as [I1 P1].
-          assert (Rb1 : R b1 ((k, v) :: mb)) by (split; auto; rewrite P1; apply perm_skip; exact Pb).
-          assert (Hkv : In (k, v) ma) by (apply Hin; left; auto).
-          pose proof (remove_key_refines a ma k v Ra Hkv) as Ra1.
-          pose proof (R_nodup _ _ Ra) as NDa.
-          assert (Hin1 : forall kv, In kv r -> In kv (sp_remove k ma)).
-          { intros [k' v'] Hi. unfold sp_remove. apply filter_In. split; [apply Hin'; auto|]. simpl.
-            destruct (Z.eqb_spec k' k); auto. subst. exfalso. apply Hk. apply in_keys. eauto. }
-          destruct (IH _ _ _ _ _ _ _ Ra1 Rb1 ND' Hin1 H) as [ma' [mb' [mv [A1 [A2 [A3 [A4 A5]]]]]]].
-          exists ma', mb', ((k, v) :: mv). split; auto. split; auto. split; [|split].
-          -- simpl. destruct (in_split _ _ Hkv) as [l1 [l2 El]].
-             assert (Pr : Permutation ((k, v) :: sp_remove k ma) ma).
-             { apply Permutation_sym. rewrite El at 1. apply Permutation_sym.
-               apply Permutation_trans with ((k, v) :: l1 ++ l2); [|apply Permutation_middle].
-               apply perm_skip. apply Permutation_sym. apply (sp_remove_perm _ _ k v NDa). rewrite El. apply Permutation_middle. }
-             rewrite <- Pr. apply perm_skip. exact A3.
-          -- rewrite A4. simpl. apply Permutation_sym, Permutation_middle.
-          -- intros Hok. simpl. rewrite Hm. f_equal. auto.
-        * inversion H; subst. exists ma, mb, []. simpl. repeat (split; auto). discriminate.
-  Qed.
-
 
   (* MergeTo as the loop over the iterator machine *)
   Lemma merge_m_spec : forall fuel a b it ma mb pre a' b' ok,
@@ -1531,14 +1433,6 @@ Section TableProofs.
   Proof.
     intros Hf. unfold HashModel.upd_gen. destruct gs as [|t r]; [destruct gi; simpl; auto|].
     destruct gi; simpl; [apply Hf|destruct (nth_error r gi); reflexivity].
-  Qed.
-
-  Lemma gens_rem_if_head p gs c gs' c' : gens_rem_if B p gs c = (gs', c') ->
-    match gs, gs' with t :: _, t' :: _ => tlog t' = tlog t | [], [] => True | _, _ => False end.
-  Proof.
-    destruct gs as [|t r]; simpl; [intros H; inversion H; auto|].
-    destruct (buckets_rem_if B p (tbs t) c) as [bs' c1]. destruct (gens_rem_if B p r c1) as [r' c2].
-    intros H; inversion H; reflexivity.
   Qed.
 
   Lemma tadd_log t kv t' : tadd t kv = Some t' -> tlog t' = tlog t.
